@@ -24,6 +24,7 @@ from . import c01, c02, c03, c04, c09, c10, c11, c12, c16, setops
 
 ASSUMES = ["C04 / C15 / C16 invariants of the pre-state", "foreign prefix constructors accept len <= width", "pt/models.py std model"]
 LEVEL_TEXT = __doc__
+DEEPER = False     # thorough tier: more configurations and the mutant corpus, same unrolling (path count grows too fast)
 OPTS = {"loop_bound": 3}
 PANIC_CALLS = ("unwrap", "expect", "panic", "panic_fmt", "unreachable", "unwrap_failed", "assert_failed", "panic_display", "panic_nounwind")
 
